@@ -430,6 +430,49 @@ func c18Gated(scn *c18Scn) c18Obs {
 			waitUntil(3*time.Second, func() bool { return g.waiting("consume:before-select") > 0 })
 			s.closeServing()
 			g.release("consume:before-select")
+		case "restart-over-old-accept-loop":
+			// the goroutine of the TCP listener's accept loop is slow to start: the Server is closed and served a second
+			// time before the loop of the first serving period has run a single statement; whatever that loop does
+			// when it finally runs must not touch the second period (a client connects and establishes a session in it)
+			g.hold("tcplistener:serve:start")
+			s.start()
+			waitUntil(3*time.Second, func() bool {
+				c, err := net.DialTimeout("tcp", s.addrs[0].String(), time.Second)
+				if err == nil {
+					_ = c.Close()
+				}
+				return err == nil
+			})
+			s.closeServing()
+			s.result(&o, 10*time.Second)
+			waitUntil(3*time.Second, func() bool { return g.waiting("tcplistener:serve:start") > 0 })
+			s.start()
+			waitUntil(3*time.Second, func() bool {
+				c, err := net.DialTimeout("tcp", s.addrs[0].String(), time.Second)
+				if err == nil {
+					_ = c.Close()
+				}
+				return err == nil
+			})
+			g.release("tcplistener:serve:start")
+			time.Sleep(5 * time.Millisecond)
+			ctx, cancel := context.WithTimeout(context.Background(), 5*time.Second)
+			if t, err := s.dial(ctx, "tcp"); err == nil {
+				cc := lime.NewClientChannel(t, 4)
+				if _, err := cc.EstablishSession(ctx, lime.NoneCompressionSelector, lime.NoneEncryptionSelector,
+					lime.Identity{Name: "u0", Domain: "verif.test"}, lime.GuestAuthenticator, "i0"); err != nil {
+					o.Note = "second serving period: establish: " + err.Error()
+				}
+				go func() {
+					for range cc.MsgChan() {
+					}
+				}()
+				defer cc.Close()
+			} else {
+				o.Note = "second serving period: dial: " + err.Error()
+			}
+			cancel()
+			s.closeServing()
 		case "close-while-holding":
 			// an acceptor holds an accepted transport before its select; Close runs; then it selects
 			g.hold("accept:before-send")
@@ -976,6 +1019,7 @@ func runC18(env *Env) error {
 		scns = append(scns, c18Scn{Kind: "sessions", Listeners: []string{k}, Buf: 4, NoBacklog: true,
 			Clients: []c18Client{{Kind: k, Phase: "connecting"}, {Kind: k, Phase: "connecting"}, {Kind: k, Phase: "idle"}, {Kind: k, Phase: "connecting"}}})
 	}
+	scns = append(scns, c18Scn{Kind: "gated", Gate: "restart-over-old-accept-loop", Listeners: []string{"tcp"}, Iter: env.Pick(2, 6), Buf: 4})
 	all := []string{"inproc", "tcp", "ws"}
 	phases := []string{"idle", "traffic", "racing", "stalled", "authfail", "finished", "gone", "connecting"}
 	// every phase alone on every transport, then mixtures
